@@ -565,3 +565,28 @@ def ret_canons_plain(fa) -> List[str]:
 def final_states(fw) -> list:
     """States in which the evaluated function can finish normally: every `return` plus falling off the end."""
     return [st for r, v, st in fw.returns] + ([fw.st] if fw.st.alive else [])
+
+
+def function_value(fa) -> Optional["Poly"]:
+    """The value a function returns, as ONE value id: its value returns folded into nested conditional expressions over their
+    path conditions (`if c: return a` / `return b` is `a if c else b`). None if some path returns nothing / falls through."""
+    from sa.forward import Forward
+    from sa.dataflow import ite_atom, cmp_negate
+    fw = Forward(fa.an, fa, call_effects=False).run()
+    cases = [(v, list(st.conds)) for r, v, st in fw.returns]
+    if fw.st.alive or not cases or any(v is None for v, _ in cases):
+        return None
+    val = cases[-1][0]
+    earlier = set()
+    decisive = []
+    for v, conds in cases:
+        d = [c for c in conds if cmp_key(c) not in earlier]
+        decisive.append(d)
+        for c in d:
+            earlier.add(cmp_key(cmp_negate(c)))
+    for (v, conds), d in zip(reversed(cases[:-1]), reversed(decisive[:-1])):
+        if not d:
+            return None
+        c = d[0] if len(d) == 1 else ("and", sorted(d, key=cmp_key))
+        val = ite_atom(c, v, val)
+    return val
